@@ -4,14 +4,42 @@
    hand model of rows / templates / writer, text layer of JL.std.GoJson with its proved round trip).
    [tpl1 c f T]: the template with the single column c of format f and raw type T.
    C13_column is the GENERIC theorem: it reduces the round trip of a column to four facts about
-   its conversions. The instances below discharge them for: the ten integer types under numeric,
-   string and auto (30 pairings), bool under boolean. PARTIAL: the remaining pairings of the
-   lossless table (floats — which need the strconv hypotheses of C12 —, binary, timestamp,
-   date-time, json.Number, string) are decided by the typed round-trip oracle of the template
-   stream on the real package (all 86 typed pairings, boundary and random values, both routes)
-   and by the cast-level theorems C11 / C12 / C14 they would be instantiated from. *)
+   its conversions (C13_column_upto: the same with the value read back, v', left free).
+   The instances (proofs/TemplateLossless.v: one lemma ok_<format>_<type> and one constructor of
+   [proved_pairing] / [proved_pairing_upto] per pairing) discharge them for EVERY ONE of the 86 typed
+   pairings of the lossless table (DESIGN.md section 8), on the domains and under the hypotheses below.
+   "ints" = the ten integer kinds (byte = uint8, rune = int32: 12 names in the table), any value in range.
+     string   (18)  ints; bool; string (valid UTF-8); json.Number (valid UTF-8); float64 / float32 FINITE,
+                    under H_float_rt, H_float_syn (+ H_f32_embed for float32) of GoHyps.v;
+                    time.Time (years 0..9999, whole-minute offset): exactly for a whole second, otherwise
+                    read back at one second with the same offset (C13_proved_pairings_upto).
+                    NOT proved: NaN / +Inf / -Inf under string (they need ParseFloat on "NaN", "+Inf").
+     numeric  (17)  ints; json.Number (a JSON number literal, kept character for character);
+                    float64 / float32 finite, same hypotheses; bool under H_parse_bool_digits (GoHypsJson.v:
+                    ParseFloat reads "0" / "1" as 0.0 / 1.0 — ToBool goes through ToFloat64);
+                    time.Time with tsec in int64: read back as the same instant, zero nanoseconds, in the
+                    reader's zone (upto).
+     boolean   (1)  bool.
+     binary   (19)  ints; bool; float64 / float32 (every bit pattern); string, json.Number, non-nil []byte
+                    (any bytes) — by base64_decode_encode (proofs/Base64Proofs.v, no axioms);
+                    time.Time with |tsec| < 2^55 (upto: same instant, reader's zone), under the premise that
+                    Go's lenient layout parser (oracle o_time_parse_slow) rejects the 8 payload bytes.
+     datetime  (1)  time.Time (as under string).
+     timestamp (12) the eight integer kinds that fit int64 (stated for all ten with the premise
+                    in_range KInt64 z, so uint / uint64 values up to MaxInt64 are covered too); bool under
+                    H_parse_bool_digits; time.Time (upto, as under numeric).
+     auto     (18)  ints; bool; string (valid UTF-8); json.Number (a JSON number literal); time.Time with its
+                    nanoseconds, 0 <= tnsec < 10^9 (Time.MarshalJSON writes them without trailing zeros, the
+                    strict RFC 3339 parser reads every digit back: pp_auto_time, pp_auto_time_nanos);
+                    float64 / float32: for a value x whose json.Marshal text t (oracle jfloat) is a JSON
+                    number that ParseFloat reads back as x (premises of pp_auto_f64 / pp_auto_f32; the named
+                    hypothesis H_jfloat_rt of GoHypsJson.v gives them for every finite float:
+                    auto_f64_pairing, auto_f32_pairing in TemplateLossless.v).
+   Hypotheses are premises of constructors, never axioms. The "none" column of the table (8 cells) is not
+   instantiated. All 86 typed pairings (and the none column) are also decided on the real package by the
+   typed round-trip oracle of the template stream (boundary and random values, both routes). *)
 From Coq Require Import ZArith List Bool.
-From JL.std Require Import GoBase GoVal GoJson.
+From JL.std Require Import GoBase GoTime GoVal GoJson.
 From JL.gen Require Import CastGen ConvGen.
 From JL.model Require Import Row RowRun Template TemplateJson.
 From JL.proofs Require Import CastBinary JsonWrite TemplateLossless.
@@ -33,10 +61,27 @@ Theorem C13_column : forall (O : oracles) jfloat jother n c f T v e leaf txt,
 Proof. exact lossless_column. Qed.
 Print Assumptions C13_column.
 
-(* the pairings proved: the ten integer types (any k, any value in range) under numeric, string and
-   auto; bool under boolean — with the exported value, the JSON value and its text as witnesses *)
+(* the value read back may differ from the value written: v' is what the column holds after the read *)
+Theorem C13_column_upto : forall (O : oracles) jfloat jother n c f T v v' e leaf txt,
+  ustr c -> v <> VNil -> format_eqb f FHidden = false ->
+  To O T v = Ok v ->
+  export_scalar O f (RS v) = Ok (RS e) ->
+  marshal_gval encode_string jfloat jother e = Ok txt ->
+  write_jv leaf = Some txt -> jv_wf leaf ->
+  rv_is_nil (rv_of_jv leaf) = false ->
+  import_scalar O f T (rv_of_jv leaf) = Ok (RS v') ->
+  exists line,
+    bind (create_row O parse_top_rv (S (S (S n))) (tpl1 c f T) (RMap [(c, RS v)]))
+         (marshal_row O encode_string jfloat jother (S (S (S n)))) = Ok line
+    /\ get_row O parse_top_rv (S (S (S n))) (tpl1 c f T) line = Ok (MkRow [(c, CVal (RS v') f T)] [c]).
+Proof. exact lossless_column_upto. Qed.
+Print Assumptions C13_column_upto.
+
+(* the pairings proved (see the header; the constructors of proved_pairing in
+   proofs/TemplateLossless.v carry the domain and the hypotheses of each) — with the exported value,
+   the JSON value and its text as witnesses *)
 Theorem C13_proved_pairings : forall (O : oracles) jfloat jother n c f T v e leaf txt,
-  ustr c -> proved_pairing f T v e leaf txt ->
+  ustr c -> proved_pairing O jfloat f T v e leaf txt ->
   exists line,
     bind (create_row O parse_top_rv (S (S (S n))) (tpl1 c f T) (RMap [(c, RS v)]))
          (marshal_row O encode_string jfloat jother (S (S (S n)))) = Ok line
@@ -44,8 +89,39 @@ Theorem C13_proved_pairings : forall (O : oracles) jfloat jother n c f T v e lea
 Proof. exact lossless_proved. Qed.
 Print Assumptions C13_proved_pairings.
 
+(* time.Time with any nanoseconds (and every pairing above, with v' = v): the value read back is the
+   same instant at one-second resolution — [same_second]: v' = v, or both are times with the same
+   tsec, tnsec = 0, and the same offset under datetime / string *)
+Theorem C13_proved_pairings_upto : forall (O : oracles) jfloat jother n c f T v v' e leaf txt,
+  ustr c -> proved_pairing_upto O jfloat f T v v' e leaf txt ->
+  same_second f v v'
+  /\ exists line,
+    bind (create_row O parse_top_rv (S (S (S n))) (tpl1 c f T) (RMap [(c, RS v)]))
+         (marshal_row O encode_string jfloat jother (S (S (S n)))) = Ok line
+    /\ get_row O parse_top_rv (S (S (S n))) (tpl1 c f T) line = Ok (MkRow [(c, CVal (RS v') f T)] [c]).
+Proof. exact lossless_proved_upto_same_second. Qed.
+Print Assumptions C13_proved_pairings_upto.
+
 (* non-vacuity: int16 -32768 under numeric(int16) is written {"c":-32768} and read back *)
 Example C13_example : forall O jf jo,
   bind (create_row O parse_top_rv 4 (tpl1 [99] FNumeric (VInt KInt16 0)) (RMap [([99], RS (VInt KInt16 (-32768)))]))
        (marshal_row O encode_string jf jo 4) = Ok [123; 34; 99; 34; 58; 45; 51; 50; 55; 54; 56; 125].
 Proof. intros. vm_compute. reflexivity. Qed.
+
+(* int16 -2 under binary(int16): the two little-endian bytes FE FF are written as base64 "/v8=" *)
+Example C13_example_binary : forall O jf jo,
+  bind (create_row O parse_top_rv 4 (tpl1 [99] FBinary (VInt KInt16 0)) (RMap [([99], RS (VInt KInt16 (-2)))]))
+       (marshal_row O encode_string jf jo 4) = Ok [123; 34; 99; 34; 58; 34; 47; 118; 56; 61; 34; 125].
+Proof. intros. vm_compute. reflexivity. Qed.
+
+(* the premises of the time pairings are satisfiable: 2023-11-14T23:13:20.000000005+01:00 under datetime
+   is read back as the same second with the same offset *)
+Example C13_example_time : forall O jf t0,
+  exists e leaf txt,
+    proved_pairing_upto O jf FDateTime (VTime t0) (VTime {| tsec := 1700000000; tnsec := 5; toff := 3600 |})
+                        (VTime {| tsec := 1700000000; tnsec := 0; toff := 3600 |}) e leaf txt.
+Proof.
+  intros. do 3 eexists.
+  apply (ppu_datetime_time O jf t0 {| tsec := 1700000000; tnsec := 5; toff := 3600 |}); vm_compute; repeat split; congruence.
+Qed.
+
